@@ -139,6 +139,7 @@ def convert_mps(prog, seed, w_prec=(2, 4, 8), a_prec=(2, 4, 8), per_channel=Fals
     mps = MPS(model, cost=cost if cost is not None else params_bit, **kw)
     from vf import neutral
     # (README: export() crashes for the per-channel scheme)
+    mps = neutral.maybe_clone(mps, seed)
     neutral.maybe_warm(mps, xs, seed, allow_export=not per_channel)
     return model, mps, xs
 
